@@ -67,6 +67,14 @@ def main():
                 vacuity=("ok", "SyntaxError"))
 
     py, xs, lits = seeds.all_seeds()
+    xg = seeds.grammar_programs("xonsh", 3 if chk.quick else 8, chk.seed)
+    chk.extra["xonsh_grammar_programs"] = len(xg)
+
+    def tfx(ex):
+        return xg[harness.choose_index(ex, "g", len(xg))]
+    if xg:
+        chk.run("xonsh.gram derivations k=0", harness.A_harness(tfx, path_oracles=("c03",)), f"{len(xg)} programs derived from every alternative of the working tree's grammar",
+                wall=150 if chk.quick else 900, vacuity=("ok",))
     from checks.c11 import LAYOUT_ERR_SEEDS
     texts = LAYOUT_ERR_SEEDS + py + xs + [t for t in lits if len(t) < 120]
     if chk.quick:
